@@ -248,8 +248,10 @@ class Registry:
         return [(c, cfr) for c in clauses]
 
     def loop_variant(self, ex, spec, fr):
-        if spec is None or spec["variant"] is None:
+        if spec is None or spec.get("variant") is None:
             return None
+        if callable(spec["variant"]):
+            return spec["variant"](ex, fr)
         con = spec["contract"]
         clauses, params = con.clauses(spec["variant"])
         scope = dict(ex.entry_scope)
